@@ -247,7 +247,11 @@ theorem stepS_winv (cfg : Cfg) (s : State) (op : Op) (hs : SInv cfg s) (h : WInv
   have hb := hs.circ.bounded
   cases op with
   | adv ms => exact winv_mono cfg s.now (s.now + ms) s.circ (Nat.le_add_right _ _) h
-  | arrive c sc tag fb => simp only [stepS]; split <;> exact h
+  | arrive c sc tag fb =>
+    simp only [stepS]
+    split
+    · exact h
+    · split <;> exact h
   | poll c =>
     simp only [stepS]
     split
@@ -277,6 +281,20 @@ theorem stepS_winv (cfg : Cfg) (s : State) (op : Op) (hs : SInv cfg s) (h : WInv
     have := winv_clear cfg s.now (transitionTo s.circ .closed s.now).1
     exact this
   | views => exact h
+  | gate g => exact h
+  | trigger u => exact h
+  | elsewhere n => exact h
+  | yield =>
+    show WInv cfg (runTasks (emit s [.manual "yield"])).now (runTasks (emit s [.manual "yield"])).circ
+    unfold runTasks
+    suffices ∀ (l : List Bool) (t : State), WInv cfg t.now t.circ →
+        WInv cfg (l.foldl applyTask t).now (l.foldl applyTask t).circ from this _ _ h
+    intro l
+    induction l with
+    | nil => intro t ht; exact ht
+    | cons u tl ih =>
+      intro t ht
+      exact ih _ (transitionTo_winv cfg t.now t.circ _ ht)
 
 theorem winv_reachable (cfg : Cfg) (ops : List Op) : WInv cfg (run cfg ops).now (run cfg ops).circ := by
   unfold run
